@@ -388,6 +388,13 @@ func ReadFromTTML(i io.Reader) (o *Subtitles, err error) {
 	// Loop through subtitles
 	for _, ts := range ttml.Subtitles {
 		// Init item
+		// Begin and end are optional attributes
+		if ts.Begin == nil {
+			ts.Begin = &TTMLInDuration{}
+		}
+		if ts.End == nil {
+			ts.End = &TTMLInDuration{}
+		}
 		ts.Begin.framerate = ttml.Framerate
 		ts.Begin.tickrate = ttml.Tickrate
 		ts.End.framerate = ttml.Framerate
